@@ -172,6 +172,27 @@ def observe(s, v):
         except Exception as e:
             o['e2e_err'] = '%s: %s' % (type(e).__name__, e)
 
+    # multipliers of ACTIVE design-variable bounds: put every design variable on the lower bound the optimizer sees and ask
+    # for the multipliers in (declared) model units: the active set is all of them and, with no constraint active,
+    # stationarity gives mu = -d obj / d dv (MultLaw: out.mu = Mu(JoU)), whatever the scaling
+    if all(x == NOV for x in s['conb']['eq']) and all(x != NOV for x in v['dvLo']):
+        try:
+            dv_vec = d._vectors['design_var']
+            dv_vec.set_data(np.array([float(fr(x)) for x in v['dvLo']]), driver_scaling=True)
+            d._set_design_vars(driver_scaling=True)
+            p.run_model()
+            d._total_jac = None
+            adv, acon = d.compute_lagrange_multipliers(driver_scaling=False, use_sparse_solve=False)
+            d._total_jac = None
+            jo = np.asarray(d._compute_totals(of=['c.f'], wrt=['ivc.x'], return_format='flat_dict',
+                                              driver_scaling=False)['c.f', 'ivc.x']).ravel()
+            if not acon:
+                got = np.atleast_1d(adv['ivc.x']['multipliers']).ravel() if 'ivc.x' in adv else np.array([])
+                idx = np.atleast_1d(adv['ivc.x']['indices']).ravel().tolist() if 'ivc.x' in adv else []
+                o['mu_bound'] = {'active': sorted(int(i) for i in idx), 'mu': [float(x) for x in got], 'want': [float(-x) for x in jo]}
+        except Exception as e:
+            o['mu_bound_err'] = '%s: %s' % (type(e).__name__, str(e)[:200])
+
     # optimizer-space value -> model -> optimizer space
     yset = np.array([float(fr(x)) for x in s['yset']])
     dv_vec = d._vectors['design_var']
@@ -252,6 +273,12 @@ def compare(ctx, e, o, stats):
         if not ok:
             bad('total derivative block %s differs from ScaleJ/UnitJ of the model block' % key,
                 [[float(x) for x in row] for row in want], o[key])
+    if 'mu_bound' in o:
+        mb = o['mu_bound']
+        if mb['active'] != list(range(n)):
+            bad('compute_lagrange_multipliers: design variables on their bounds are not all found active', list(range(n)), mb['active'])
+        elif len(mb['mu']) != n or not all(close(a, b) for a, b in zip(mb['mu'], mb['want'])):
+            bad('multipliers of active design-variable bounds (driver_scaling=False) differ from -d obj/d dv', mb['want'], mb['mu'])
     if 'mult_err' in o:
         bad('apply_mult_unscaling raised: ' + o['mult_err'], {'mu': [float(fr(x)) for x in v['mu']],
                                                            'lam': [float(fr(x)) for x in v['lam']]}, o['mult_err'],
@@ -340,8 +367,8 @@ INVARIANT Export
     ctx.coverage_actions['Choose'] = len(scens)
     ctx.coverage_actions['Pick'] = r.distinct - len(scens) - 16
     ctx.require_actions(['Pick', 'Choose'])
-    if ctx.coverage_actions['Pick'] != 184:
-        raise MachineryError('expected 184 declarations (88 one-element, 96 two-element), TLC visited %d'
+    if ctx.coverage_actions['Pick'] != 200:
+        raise MachineryError('expected 200 declarations (88 one-element, 112 two-element), TLC visited %d'
                              % ctx.coverage_actions['Pick'])
     scens.sort(key=lambda e: (e['s']['n'], e['s']['idv'], e['s']['icon']))
     if getattr(ctx, 'replay', None):
@@ -390,7 +417,7 @@ INVARIANT Export
                 'scenarios with some scaling or unit conversion declared' % stride)
     ctx.assumptions = [
         'declared units are applied before the scaling; bounds, ref and ref0 are in the declared units',
-        'bounds are mapped pointwise (lower -> image of lower); a negative scaler is not expected to swap lower/upper',
+        'the bound pair seen by the optimizer is the image of the interval: a negative scaler exchanges lower and upper (absent on the other side)',
         'no pyoptsparse: multipliers are checked through Autoscaler.apply_mult_unscaling and '
         'Driver.compute_lagrange_multipliers (dense solve) on equality-constrained scenarios without design-variable bounds',
         'Driver.set_design_var (public, deprecated) raises "Deprecation message expired" on this tree and is only counted',
